@@ -24,7 +24,7 @@ NR = "sylt_compiler::name_resolution::"
 
 
 def is_code_ty(t):
-    return "Vec<intermediate::IR>" in t.replace("alloc::vec::", "").replace("std::vec::", "")
+    return "alloc::vec::Vec<sylt_compiler::intermediate::IR>" in t
 
 
 def vec_macro_elems(e):
@@ -181,7 +181,7 @@ class Ev:
                 self.unzip(init, pat, env, mult)
                 continue
             ty = binds[0][0]["ty"] if len(binds) == 1 and binds[0][1] == () else ""
-            if is_code_ty(ty) or "Vec<alloc::vec::Vec<intermediate::IR>>" in ty or "Vec<std::vec::Vec<intermediate::IR>>" in ty:
+            if is_code_ty(ty) :
                 env[binds[0][0]["hid"]] = ("codeval", self.code(init, env, mult))
                 continue
             if len(binds) == 1 and binds[0][1] == ():
@@ -445,7 +445,7 @@ def arm_templates(F, fnname, enum):
         b = peel(arm["body"])
         t = b.get("ty", "")
         result = None
-        if t.startswith("(") and "Vec<intermediate::IR>" in t:
+        if t.startswith("(") and is_code_ty(t):
             # (code, var)
             env2 = dict(env)
             if b.get("k") == "Block":
